@@ -31,8 +31,11 @@ def worker(a):
     for modname in ("tools", "laue"):
         mod = importlib.import_module("xfab." + modname)
         w2 = (L.TWO_PI ** 2) if L.W[modname] else 1.0
-        for u in us:
+        for ui, u in enumerate(us):
             cell0 = L.as_container(L.cell_from_metric(G, u), int(G[0]) + int(G[3]) + len(rec["path"]))
+            if rec.get("intcell") and ui == 0:
+                # scale 1: the same cell typed as Python ints / an integer array
+                cell0 = list(rec["intcell"]) if len(rec["path"]) % 2 else np.array(rec["intcell"])
             rcell_metric = [x / (u * det) for x in adj]          # reciprocal metric tensor entries (no 2pi)
             cur = cell0
             rep = "cell"
@@ -150,13 +153,29 @@ def worker(a):
     return n, out
 
 
-def cases_module(wd, rng, tier, name="CellCases", nh=6, box=3):
+def integer_cells(rng, n):
+    """cells a user types as integers: integral lengths, angles 60/90/120 degrees -> integer metric tensor (2 | a b etc.)"""
+    import genhkl_lib as gl
+    out = {}
+    cosn = {60: 1, 90: 0, 120: -1}          # 2 cos
+    tries = 0
+    while len(out) < n and tries < 5000:
+        tries += 1
+        a, b, c = [rng.choice([2, 4, 6]) for _ in range(3)]      # det G^2 must fit 32 bits (RecipPosDef)
+        al, be, ga = [rng.choice([60, 90, 90, 120]) for _ in range(3)]
+        m = [a * a, b * b, c * c, b * c * cosn[al] // 2, a * c * cosn[be] // 2, a * b * cosn[ga] // 2]
+        if gl.spd(m) and gl.gram_ok(m) and (al, be, ga) != (90, 90, 90):
+            out[tuple(m)] = [a, b, c, al, be, ga]
+    return out
+
+
+def cases_module(wd, rng, tier, name="CellCases", nh=6, box=3, metrics=()):
     hk = {(1, 0, 0), (0, 1, 0), (0, 0, 1), (1, 1, 1), (1, -1, 0), (-2, 1, 3)}
     while len(hk) < 6 + nh:
         h = tuple(rng.randint(-box, box) for _ in range(3))
         if h != (0, 0, 0):
             hk.add(h)
-    common.write_data_module(wd, name, {"Metrics": common.TlaSet([]), "Hkls": common.TlaSet([list(h) for h in sorted(hk)])})
+    common.write_data_module(wd, name, {"Metrics": common.TlaSet([list(m) for m in metrics]), "Hkls": common.TlaSet([list(h) for h in sorted(hk)])})
 
 
 def run(tier, seed):
@@ -164,7 +183,8 @@ def run(tier, seed):
     v = common.Verdict("C01", tier, seed)
     wd = common.workdir("C01")
     rng = random.Random(seed)
-    cases_module(wd, rng, tier, box=3 if tier == "quick" else 6)
+    intcells = integer_cells(rng, 12 if tier == "quick" else 80)
+    cases_module(wd, rng, tier, box=3 if tier == "quick" else 6, metrics=sorted(intcells))
     r = common.run_tlc("Cell", "MC_Cell.cfg" if tier == "quick" else "MC_Cell_thorough.cfg", wd, timeout=3000, heap="16g")
     if r.violated:
         raise common.MachineryError("Cell.tla: model-level identity violated: %s" % r.violated)
@@ -190,6 +210,9 @@ def run(tier, seed):
         for pth in rng.sample(paths, min(6, len(paths))):
             near.append(L.exact_metric_record(G, hk, pth))
     recs = recs + near
+    for x in recs:
+        if tuple(x["G"]) in intcells:
+            x["intcell"] = intcells[tuple(x["G"])]
     res = common.pmap(worker, [(x, us) for x in recs])
     ncalls = 0
     metrics = set()
